@@ -1103,7 +1103,7 @@ func main() {
 	}
 	// the same pairs with a garbage collection between the two statements, on this goroutine alone: nothing refers to
 	// the first statement any more, so the second one may be allocated at its address (identity of a statement is not
-	// its address). Every first statement with three of the seconds (all of them on the thorough tier).
+	// its address). Every first statement with three (thorough: twelve) of the seconds.
 	var gcPairs int
 	for i, a := range firsts {
 		if r.OutOfTime() {
@@ -1111,6 +1111,9 @@ func main() {
 		}
 		n := 3
 		if r.Thorough() {
+			n = 12
+		}
+		if n > len(seconds) {
 			n = len(seconds)
 		}
 		for k := 0; k < n; k++ {
